@@ -74,6 +74,16 @@ def ignored_before_blanks(root: Any) -> bool:
     return any(type(a).__name__ == 'Ignored' and isinstance(b, O.Whitespace) for a, b in zip(toks, toks[1:]))
 
 
+SELF_DELIMITING = ('Comma', 'LeftBrace', 'RightBrace', 'DblLeftBrace', 'DblRightBrace', 'LeftParen', 'RightParen', 'Tilde', 'Hash', 'At', 'AtAt', 'Asterisk',
+                   'Newline', 'Whitespace', 'Indent', 'Eol', 'InlineComment', 'BlockComment')
+
+
+def tight_pairs(root: Any) -> set:
+    """Pairs of word-like tokens that touch (no blank, no punctuation between them): '10.00USD', '1"a"', 'Assets:Foo;c' ..."""
+    toks = [t for t in O.store_tokens(root.token_store) if t.raw_text != '']
+    return {(id(a), id(b)) for a, b in zip(toks, toks[1:]) if type(a).__name__ not in SELF_DELIMITING and type(b).__name__ not in SELF_DELIMITING}
+
+
 def compare(root: Any, what: str, key: str) -> Optional[tuple[str, str]]:
     text = O.print_text(root)
     try:
@@ -126,6 +136,9 @@ def run_case(case: dict) -> Result:
             a = OPS.resolve(root, op)
         except OPS.NotApplicable:
             continue
+        if pinned and a.family == 'claim' and str(a.prop).startswith('unclaim'):
+            a.run()   # only in the committed trigger of the open finding about edits next to unowned comments
+            continue
         if not a.syntax_ok or (a.family == 'claim' and str(a.prop).startswith('unclaim')):
             # unclaiming leaves unowned comments in the store; what later insertions do around them is outside the statement
             classes.add('skipped-not-syntax-preserving')
@@ -133,6 +146,7 @@ def run_case(case: dict) -> Result:
         neighbours = False
         if a.structural and a.P is not None and isinstance(a.P, base.RawTreeModel):
             neighbours = len([c for c in O.raw_children(a.P) if not isinstance(c, O.ZERO_WIDTH)]) >= 2
+        tight0 = tight_pairs(root)
         try:
             a.run()
         except common.REFUSAL:
@@ -154,6 +168,12 @@ def run_case(case: dict) -> Result:
             res.excluded_known += 1
             break
         bad = compare(root, str(op), a.key())
+        if bad and (tight_pairs(root) - tight0) and a.removed and not a.inserted:
+            # open finding: in a compact layout ('10.00USD', '1"a"2') the removed child was the only thing between its neighbours
+            texts = [(x.raw_text, y.raw_text) for x, y in zip(O.store_tokens(root.token_store), O.store_tokens(root.token_store)[1:]) if (id(x), id(y)) in tight_pairs(root) - tight0]
+            bad = ('removal-glues-tight-neighbours', f'after {op} the tokens {texts[:2]} touch, which they did not before: {bad[1][:400]}')
+        if bad and pinned and any(type(t).__name__ == 'BlockComment' and not t.claimed for t in O.store_tokens(root.token_store)):
+            bad = ('edit-next-to-unowned-comment', f'with an unowned comment in the document: {bad[1][:500]}')
         if bad:
             res.bad(*bad)
             break
